@@ -291,7 +291,11 @@ private:
     {
         byte_vector_t row( this->_io_dev.get_tile_size() );
 
-        using x_iterator = typename detail::my_interleaved_pixel_iterator_type_from_pixel_reference<typename View::reference>::type;
+        // like the strip writer: the tile holds pixels in the channel order of the colour space,
+        // whatever the channel order of the view
+        using x_iterator = pixel< typename channel_type< View >::type
+                                , layout< typename color_space_type< View >::type >
+                                >*;
         x_iterator row_it = x_iterator( &(*row.begin()));
 
         internal_write_tiled_data(view, tw, th, row, row_it);
